@@ -124,6 +124,14 @@ def dense_pairs():
         for l_ in long_:
             yield s_, l_
             yield l_, s_
+    # lopsided operands (lengths differing by more than 32x / 64x): code paths that narrow the long operand
+    for n_long in (40, 70, 140):
+        base = list(range(1000, 1000 + 3 * n_long, 3))
+        for short in ([base[0]], [base[-1]], [base[n_long // 2]], [base[0] - 1], [base[-1] + 1], [base[3] + 1],
+                      [base[0], base[-1]], [base[1], base[-1]], [base[0] - 1, base[-1]], [base[5], base[-1] + 2], [base[-2], base[-1]]):
+            if len(short) * 32 < n_long:
+                yield short, base
+                yield base, short
 
 
 def search(fname, contract, params, variant="prod", scope="increasing", limit=3):
